@@ -18,14 +18,14 @@ type c03doc struct {
 }
 
 // c03Extract: everything an extraction returns, as one digest per operation.
-func c03Extract(path string) [8]string {
+func c03Extract(path string) [9]string {
 	h := func(s string, err error) string {
 		if err != nil {
 			return "error"
 		}
 		return fmt.Sprintf("%x", sha256.Sum256([]byte(s)))[:16]
 	}
-	var out [8]string
+	var out [9]string
 	func() {
 		defer func() {
 			if r := recover(); r != nil {
@@ -50,6 +50,16 @@ func c03Extract(path string) [8]string {
 			out[6] = h(t, e5)
 			out[7] = h(cc.ToMarkdown(), nil)
 		}
+		if fr, _, err := tabula.Open(path).Fragments(); err == nil {
+			// geometry too: widths come from font tables that documents may share
+			var b strings.Builder
+			for _, f := range fr {
+				fmt.Fprintf(&b, "%s|%.3f|%.3f|%.3f|%.3f;", f.Text, f.X, f.Y, f.Width, f.Height)
+			}
+			out[8] = h(b.String(), nil)
+		} else {
+			out[8] = "error"
+		}
 		d, _, err := tabula.Open(path).Document()
 		if err != nil || d == nil {
 			out[4] = "error"
@@ -71,7 +81,7 @@ func c03Extract(path string) [8]string {
 func init() {
 	props["C03"] = func(r *Run, rng *RNG) {
 		thorough := r.Tier == "thorough"
-		r.Rule = "generated documents of every format (PDF with several pages, positioned lines and three fonts of different encodings, DOCX, ODT, XLSX, PPTX, EPUB, HTML) plus truncated and corrupted copies that fail or end mid-operand; each document extracted (text, Markdown, chunks as JSON, JSON Lines, CSV, TSV and Markdown, document model) 4 times in a row, in 3 random orders of all documents, and concurrently on 8 goroutines (thorough: 16 goroutines, 20 rounds) in a binary built with the race detector; content streams that end mid-operand followed by other streams through contentstream.Parser. non-trivial = every document"
+		r.Rule = "generated documents of every format (PDF with several pages, positioned lines and three fonts of different encodings, the same base font with and without its own /Widths, baselines closer than the glyph height, DOCX, ODT, XLSX, PPTX, EPUB, HTML) plus truncated and corrupted copies that fail or end mid-operand; each document extracted (text, Markdown, chunks as JSON, JSON Lines, CSV, TSV and Markdown, document model, fragments with their geometry) 8 times in a row (thorough: 26), in 3 random orders of all documents, and concurrently on 8 goroutines (thorough: 16 goroutines, 20 rounds) in a binary built with the race detector; content streams that end mid-operand followed by other streams through contentstream.Parser. non-trivial = every document"
 		words := func(n int, tag string) []string {
 			var out []string
 			for i := 0; i < n; i++ {
@@ -101,6 +111,22 @@ func init() {
 			}
 			pdf := mkPDFLines(pages, 612, 792)
 			add("pdf", ".pdf", pdf, false)
+			// the same base font with its own /Widths: documents must not see each other's widths
+			var ws []string
+			for c := 32; c <= 126; c++ {
+				ws = append(ws, fmt.Sprint(200+rng.Intn(900)))
+			}
+			pdfLinesFontExtra = " /FirstChar 32 /LastChar 126 /Widths [" + strings.Join(ws, " ") + "]"
+			withW := mkPDFLines([][]pdfLine{{{x: 72, y: 700, size: 12, text: fmt.Sprintf("Hello World number %d", i)}, {x: 72, y: 680, size: 12, text: "second line of words"}}}, 612, 792)
+			pdfLinesFontExtra = ""
+			add("pdf-own-widths", ".pdf", withW, false)
+			add("pdf-standard-widths", ".pdf", mkPDFLines([][]pdfLine{{{x: 72, y: 700, size: 12, text: fmt.Sprintf("Hello World number %d", i)}, {x: 72, y: 680, size: 12, text: "second line of words"}}}, 612, 792), false)
+			// baselines closer than the glyphs are high, in no particular stream order
+			var dense []pdfLine
+			for l := 0; l < 14; l++ {
+				dense = append(dense, pdfLine{x: 72 + 40*(l%3), y: 700 - 3*((l*5)%14), size: 12, text: fmt.Sprintf("w%dx", l)})
+			}
+			add("pdf-dense", ".pdf", mkPDFLines([][]pdfLine{dense}, 612, 792), false)
 			add("docx", ".docx", writeZip(mkDOCXSimple(words(rng.Range(2, 6), fmt.Sprintf("DOCX%d", i)))), false)
 			add("odt", ".odt", writeZip(mkODTSimple(words(rng.Range(2, 6), fmt.Sprintf("ODT%d", i)))), false)
 			add("xlsx", ".xlsx", writeZip(mkXLSXSimple(words(rng.Range(2, 6), fmt.Sprintf("XLSX%d", i)))), false)
@@ -119,10 +145,14 @@ func init() {
 			add("docx-truncated", ".docx", dz[:len(dz)/2], true)
 		}
 		// (a) repetition
-		base := make([][8]string, len(docs))
+		reps := 7
+		if thorough {
+			reps = 25
+		}
+		base := make([][9]string, len(docs))
 		for i, d := range docs {
 			base[i] = c03Extract(d.path)
-			for rep := 0; rep < 3; rep++ {
+			for rep := 0; rep < reps; rep++ {
 				got := c03Extract(d.path)
 				r.Check(got == base[i], "repeat:"+d.kind, fmt.Sprintf("extracting the same %s again gives a different result: %v then %v", d.kind, base[i], got), Bs(d.kind))
 			}
@@ -154,7 +184,7 @@ func init() {
 		}
 		for round := 0; round < rounds; round++ {
 			var wg sync.WaitGroup
-			results := make([][8]string, len(docs))
+			results := make([][9]string, len(docs))
 			sem := make(chan struct{}, g)
 			for i := range docs {
 				wg.Add(1)
@@ -207,5 +237,7 @@ func init() {
 		// side claims there are none; the model side prints what the translator found
 		r.Case(L(I(0)), L(), "mutable-globals", true)
 		r.Case(L(I(1)), L(Bs("tables.globalRegistry")), "globals-with-method-calls", true)
+		r.Case(L(I(2)), L(Bs("font.MacRomanEncoding (returned)"), Bs("font.PDFDocEncoding (returned)"), Bs("font.StandardEncodingTable (returned)"), Bs("font.SymbolEncoding (returned)"), Bs("font.WinAnsiEncoding (returned)"), Bs("font.ZapfDingbatsEncoding (returned)")), "aliased-globals", true)
+		r.Case(L(I(3)), L(Bs("core.Dict.Keys: append keys"), Bs("core.Dict.String: append parts"), Bs("epubdoc.Reader.findNCX: early return"), Bs("epubdoc.Reader.findNavDocument: early return"), Bs("reader.Reader.ExtractPageImages: append images"), Bs("reader.Reader.ResolveDeep: early return"), Bs("resolver.ObjectResolver.resolve: early return"), Bs("tables.DetectorRegistry.List: append names")), "map-order-sinks", true)
 	}
 }
